@@ -855,13 +855,16 @@ impl<'a> Parser<'a> {
                 BinaryOperator::Is => self.parse_test(lhs)?,
                 BinaryOperator::Pipe => self.parse_filter(lhs)?,
                 _ => {
+                    // unary operators are not allowed directly after a ~
+                    let unary_after_concat = op == BinaryOperator::StrConcat
+                        && matches!(
+                            self.next,
+                            Some(Ok((Token::Minus, _))) | Some(Ok((Token::Ident("not"), _)))
+                        );
                     let rhs = self.inner_parse_expression(r_bp)?;
                     span.expand(&self.current_span);
 
-                    // unary operators are not allowed after a ~
-                    if op == BinaryOperator::StrConcat
-                        && let Expression::UnaryOperation(uop) = rhs
-                    {
+                    if unary_after_concat && let Expression::UnaryOperation(uop) = rhs {
                         return Err(Error::syntax_error(
                             format!("`{}` is not allowed after `~`", uop.op),
                             &self.current_span,
